@@ -35,7 +35,8 @@ type svcWorld struct {
 }
 
 func openSvc(path string, lineage int64) *svcWorld {
-	w := &svcWorld{names: map[string]string{"anon": fmt.Sprintf("SA%d", lineage), "named": fmt.Sprintf("SB%d", lineage)}}
+	// the first real topic name is a proper prefix of the second (bucket names in a key-ordered store)
+	w := &svcWorld{names: map[string]string{"anon": fmt.Sprintf("S%d", lineage), "named": fmt.Sprintf("S%d_high", lineage)}}
 	d := rt.NewDiag()
 	st, err := rt.NewBoltStore(path, true, d)
 	if err != nil {
@@ -152,7 +153,7 @@ func (w *svcWorld) runOps(ops []SOp, from int, log *[]rt.M, snapshot func(phase 
 }
 
 // doSvc runs one operation history with a restart at every boundary; returns one trace per crash point.
-func doSvc(ops []SOp, lineage int64) [][]rt.M {
+func doSvc(ops []SOp, lineage int64, lastOnly bool) [][]rt.M {
 	dir := tmpDir()
 	defer os.RemoveAll(dir)
 	w := openSvc(join(dir, "run1.db"), lineage)
@@ -180,6 +181,9 @@ func doSvc(ops []SOp, lineage int64) [][]rt.M {
 	var out [][]rt.M
 	tails := map[[2]int][]rt.M{}
 	for _, cp := range points {
+		if lastOnly && !(cp.k == len(ops)-1 || (cp.at == "idle" && cp.k == len(ops)-2)) {
+			continue
+		}
 		tr := append([]rt.M(nil), log[:cp.prefix]...)
 		if cp.at == "before" {
 			tr = append(tr, ev("Pre", cp.pre))
